@@ -14,6 +14,8 @@ import (
 // is read back by the client keeper's iterator at exactly that height, and two different heights never share a key.
 func VerifC19ConsensusKeys() {
 	rt.Opt("structured-keys")
+	rt.RegisterInterfaces(types.RegisterInterfaces)
+	rt.RegisterInterfaces(tsstypes.RegisterInterfaces)
 	ctx := rt.EmptyCtx()
 	k := NewKeeper(rt.Codec(), rt.StoreKey(host.StoreKey), paramtypes.Subspace{}, nil)
 	chain := rt.StrN("chain", 3)
